@@ -96,6 +96,7 @@ type Task struct {
 	Key        uint64 // schedule-independent identity (operation id + creation ordinal): what tapes record
 	children   uint64
 	Held       bool // not runnable until the harness releases it (fired-but-not-run timer callbacks)
+	Handoff    bool // parked at a lock operation while other tasks want that lock (see Mutex.Lock)
 	BlockNote  string
 }
 
